@@ -12,8 +12,11 @@ RESP_MAX = 100
 
 
 def gen_cases(ctx):
+    rp = S.replay_script(ctx)
+    if rp:
+        return [{"kind": "replay", "lines": rp}]
     g = S.WorldGen(ctx.rng)
-    n_small, n_long, n_str, n_ovf = (260, 24, 24, 6) if ctx.thorough else (26, 3, 4, 1)
+    n_small, n_long, n_str, n_ovf = (260, 24, 24, 6) if ctx.thorough else (20, 2, 3, 1)
     cases = []
     for _ in range(n_small):
         cases.append(g.small())
@@ -205,17 +208,23 @@ def run(ctx):
             com_rd = S.committed(rd)
             stats["have_inside_segment"] += 1 if any(x[0] in com_rd and x[0] not in tips for x in sess["sample"]) else 0
             stats["straddling_resumes"] += sum(1 for m in resp[:-1] if m["cmds"] and m["cmds"][-1]["id"] not in tips)
+    ctx.log("harness and oracles done: %d sessions" % len(items))
     # ---- model side: the same sessions evaluated in Coq on the dumped layouts
     def render(chunk):
         defs = []
         names = []
+        stores = {}
         for k, (ci, si, rd, sess, op) in enumerate(chunk):
             ids = S.Ids(S.dump_ids(rd) + [a[0] for a in sess["sample"]])
             st, sid, sample, tl, xs = render_session(ids, rd, sess)
-            defs.append("Definition st%d := %s.\nDefinition c%d := check_session true st%d 1 %d 0 %s %s %s && wf_storeb st%d.\n" % (k, st, k, k, sid, sample, tl, xs, k))
+            if st not in stores:
+                stores[st] = "st%d" % len(stores)
+                defs.append("Definition %s := %s.\nDefinition w%s := Eval vm_compute in wf_storeb %s.\n" % (stores[st], st, stores[st], stores[st]))
+            sn = stores[st]
+            defs.append("Definition c%d := check_session true %s 1 %d 0 %s %s %s && w%s.\n" % (k, sn, sid, sample, tl, xs, sn))
             names.append("c%d" % k)
         return "".join(defs) + "Eval vm_compute in (mismatches (fun b : bool => b) %s).\n" % vlib.coq_list(names)
-    outs, chunks = vlib.coq_eval_sharded(ctx, "c17", S.COQ_HEADER.replace("model.SyncCases.", "model.SyncCases proofs.SyncWfCheck."), items, render, shard=max(4, len(items) // 12 + 1), timeout=1500)
+    outs, chunks = vlib.coq_eval_sharded(ctx, "c17", S.COQ_HEADER_STR.replace("model.SyncCases.", "model.SyncCases proofs.SyncWfCheck."), items, render, shard=max(4, len(items) // 12 + 1), timeout=1500)
     mism = []
     base = 0
     for (rc, o), ch in zip(outs, chunks):
@@ -230,7 +239,7 @@ def run(ctx):
         ci, si, rd, sess, op = items[mism[0]]
         ids = S.Ids(S.dump_ids(rd) + [a[0] for a in sess["sample"]])
         st, sid, sample, tl, xs = render_session(ids, rd, sess)
-        rc, o = vlib.coq_eval(ctx, "c17_explain", S.COQ_HEADER + "Definition st := %s.\nEval vm_compute in (map show_out (session_outputs true st 1 %d 0 %s %s)).\n" % (st, sid, sample, tl))
+        rc, o = vlib.coq_eval(ctx, "c17_explain", S.COQ_HEADER_STR + "Definition st := %s.\nEval vm_compute in (map show_out (session_outputs true st 1 %d 0 %s %s)).\n" % (st, sid, sample, tl))
         detail = "case %d session %d (%s): impl %s ; model %s" % (ci, si, op, xs[:1500], o[-1500:])
     ctx.coverage.update({
         "traces_validated_against_impl": len(items),
